@@ -24,7 +24,11 @@ Definition is_skip (s : stmt) : bool := match s with SSkip => true | _ => false 
 Definition store_var (l : loc) : list instr :=
   match l with LGlobal a => [STAM a] | LFrame k => [LDBM 1; STAI k] end.
 
+(* what a call site knows of a procedure: its entry label and whether it is a function *)
+Record pframe := { pf_entry : label; pf_isfunc : bool }.
+
 Section Codegen.
+  Variable pinfo : string -> option pframe.   (* the procedures that may be called *)
   Variable venv : string -> option loc.
   Variable pool : Z -> option Z.
   Variables size nslots : Z.
@@ -33,6 +37,13 @@ Section Codegen.
   Variable exitl : label.       (* the procedure's exit label *)
 
   Definition cge (e : expr) (n : label) : option (list instr * label) := cg venv pool size nslots e RA n off0.
+
+  (* loadActuals for call-free actuals: actual i goes to the outgoing word sp + k + i *)
+  Fixpoint cargs (args : list expr) (k : Z) (n : label) : option (list instr * label) :=
+    match args with
+    | [] => Some ([], n)
+    | e :: r => do (c, n1) <- cge e n; do (cr, n2) <- cargs r (k + 1) n1; Some (c ++ [LDBM 1; STAI k] ++ cr, n2)
+    end.
 
   Fixpoint cs (s : stmt) (n : label) {struct s} : option (list instr * label) :=
     match s with
@@ -60,6 +71,13 @@ Section Codegen.
            | x :: r => do (c1, n1) <- cs x n; do (c2, n2) <- go r n1; Some (c1 ++ c2, n2)
            end) ss n
     | SAssign x e => do l <- venv x; do (c, n1) <- cge e n; Some (c ++ store_var l, n1)
+    | SCall p args =>
+        (* genProcCall: the actuals, then branch and link *)
+        do pi <- pinfo p;
+        if pf_isfunc pi then None
+        else if Z.of_nat (List.length args) + 1 <=? og then
+          do (c, n1) <- cargs args 1 n; Some (c ++ [LDAP n1; BR (pf_entry pi); LABEL n1], n1 + 1)
+        else None
     | SSys 0 [e] =>
         if 3 <=? og then do (c, n1) <- cge e n; Some (c ++ [LDBM 1; STAI 2; LDAC 0; SVC; LDAM 1; LDAI 1], n1) else None
     | SSys 1 [e; st] =>
@@ -101,16 +119,19 @@ Definition prologue (size : Z) : list instr :=
 Definition epilogue (isf : bool) (size : Z) : list instr :=
   [LABEL 0] ++ (if isf then [LDBM 1; STAI (size + 1)] else [LDBM 1]) ++
   (if 0 <? size then [LDAC size; ADD; STAM 1] else []) ++ [LDBI size; BRB].
-Definition cproc_lowered (gaddr : string -> option Z) (pool : Z -> option Z) (p : proc) (size og : Z) : option (list instr) :=
-  do (c, _) <- cs (frame_venv gaddr p size) pool size size (first_temp p) og 0 (body p) 1;
+Definition cproc_lowered (pinfo : string -> option pframe) (gaddr : string -> option Z) (pool : Z -> option Z) (p : proc) (size og : Z) : option (list instr) :=
+  do (c, _) <- cs pinfo (frame_venv gaddr p size) pool size size (first_temp p) og 0 (body p) 1;
   Some (prologue size ++ c ++ epilogue (is_func p) size).
-Definition cproc (gaddr : string -> option Z) (pool : Z -> option Z) (p : proc) (size og : Z) : option (list instr) :=
-  do c <- cproc_lowered gaddr pool p size og; Some (peephole (List.length c) c).
+Definition cproc (pinfo : string -> option pframe) (gaddr : string -> option Z) (pool : Z -> option Z) (p : proc) (size og : Z) : option (list instr) :=
+  do c <- cproc_lowered pinfo gaddr pool p size og; Some (peephole (List.length c) c).
 
 (* ---------------------------------------------------------------- correctness *)
 Definition wr_ev (p : Z * Z) : event := Write (snd p) (fst p).
 
 Section Correct.
+  Variable pinfo : string -> option pframe.
+  Variable Fr : Z -> Prop.              (* the free stack below the frame (used by callees) *)
+  Variable Dq : nat -> Prop.            (* an invariant of the call depth (the stack budget), handed on to callees *)
   Variable venv : string -> option loc.
   Variable pool : Z -> option Z.
   Variables size nslots off0 og : Z.
@@ -124,31 +145,37 @@ Section Correct.
   Notation Cm := (C P m0).
   Notation Tm := (T size nslots sp off0).
   Definition O (a : Z) : Prop := sp <= a < sp + og.
-  Definition scratch (a : Z) : Prop := Tm a \/ O a.
+  Definition scratch (a : Z) : Prop := Tm a \/ O a \/ Fr a.
   Definition addr_of (l : loc) : Z := match l with LGlobal a => a | LFrame k => sp + k end.
 
   Hypothesis HT_mem : 0 <= tlo size nslots sp /\ fb size sp - off0 < MEMW.
   Hypothesis HT_P : forall a, Tm a -> ~ P a.
   Hypothesis HT_1 : ~ Tm 1.
   Hypothesis HO : forall a, O a -> in_mem a = true /\ ~ P a /\ a <> 1 /\ ~ Tm a.
+  Hypothesis HF : forall a, Fr a -> ~ P a /\ a <> 1.
   Hypothesis Hstop : in_mem (sp + 2) = true /\ ~ P (sp + 2) /\ sp + 2 <> 1.
   Hypothesis Hpool : forall v a, pool v = Some a -> P a /\ in_mem a = true /\ rd m0 a = v mod W.
   Hypothesis Hvar : forall x l, venv x = Some l ->
     in_mem (addr_of l) = true /\ ~ scratch (addr_of l) /\ ~ P (addr_of l) /\ addr_of l <> 1.
   Hypothesis Hinj : forall x y lx ly, venv x = Some lx -> venv y = Some ly -> x <> y -> addr_of lx <> addr_of ly.
+  (* the procedures that can be called: their entry labels lie in the address space, and no constant bears their name *)
+  Hypothesis Hentry : forall p pi, pinfo p = Some pi -> 0 <= lab (pf_entry pi) < W.
+  Hypothesis Hcallt : forall p pi st n, pinfo p = Some pi -> call_target ge p st <> TSys n.
 
-  Definition Rel (st : state) (m : WMap.t) : Prop := Cm m /\ rd m 1 = sp /\ vars_ok venv ge sp m st /\ stk st <> [].
+  Definition Rel (st : state) (m : WMap.t) : Prop :=
+    Cm m /\ rd m 1 = sp /\ vars_ok venv ge sp m st /\ stk st <> [] /\ Dq (f_depth (top st)).
 
   (* what a statement adds to the spec state besides variables: outputs; nothing else *)
   Definition post (st st' : state) (outs : list (Z * Z)) : Prop :=
-    out_rev st' = rev outs ++ out_rev st /\ input st' = input st /\ ncons st' = ncons st /\ garrs st' = garrs st.
+    out_rev st' = rev outs ++ out_rev st /\ input st' = input st /\ ncons st' = ncons st /\ garrs st' = garrs st /\
+    tl (stk st') = tl (stk st) /\ f_depth (top st') = f_depth (top st).
 
   Lemma post_refl st : post st st []. Proof. repeat split. Qed.
   Lemma post_same st st' : same_store st st' -> post st st' [].
-  Proof. intros (_ & _ & Ha & Ho & Hi & Hn). repeat split; assumption. Qed.
+  Proof. intros (_ & Hk & Ha & Ho & Hi & Hn). unfold post, top. rewrite Hk. repeat split; assumption. Qed.
   Lemma post_trans a b c o1 o2 : post a b o1 -> post b c o2 -> post a c (o1 ++ o2).
   Proof.
-    intros (H1 & H2 & H3 & H4) (G1 & G2 & G3 & G4). repeat split; try congruence.
+    intros (H1 & H2 & H3 & H4 & H5 & H6) (G1 & G2 & G3 & G4 & G5 & G6). repeat split; try congruence.
     rewrite G1, H1, rev_app_distr, app_assoc. reflexivity.
   Qed.
 
@@ -169,8 +196,8 @@ Section Correct.
 
   Lemma Rel_same st st' m : same_store st st' -> Rel st m -> Rel st' m.
   Proof.
-    intros Hs (A & B & D & E). split; [exact A|]. split; [exact B|]. split; [eapply vars_ok_same; eassumption|].
-    destruct Hs as (_ & Hk & _). rewrite Hk. exact E.
+    intros Hs (A & B & D & E & Q). split; [exact A|]. split; [exact B|]. split; [eapply vars_ok_same; eassumption|].
+    destruct Hs as (_ & Hk & _). unfold top. rewrite Hk. exact (conj E Q).
   Qed.
 
   (* changes confined to temporaries and the outgoing area keep the relation *)
@@ -178,8 +205,8 @@ Section Correct.
   Proof.
     intros Hm (A & B & D & E). split; [|split; [|split; [|exact E]]].
     - intros a Ha HP. rewrite Hm; [apply A; assumption | exact Ha|].
-      intros [Ht|Ho]; [exact (HT_P a Ht HP) | exact (proj1 (proj2 (HO a Ho)) HP)].
-    - rewrite Hm; [exact B | lia|]. intros [Ht|Ho]; [exact (HT_1 Ht) | exact (proj1 (proj2 (proj2 (HO 1 Ho))) eq_refl)].
+      intros [Ht|[Ho|Hf]]; [exact (HT_P a Ht HP) | exact (proj1 (proj2 (HO a Ho)) HP) | exact (proj1 (HF a Hf) HP)].
+    - rewrite Hm; [exact B | lia|]. intros [Ht|[Ho|Hf]]; [exact (HT_1 Ht) | exact (proj1 (proj2 (proj2 (HO 1 Ho))) eq_refl) | exact (proj2 (HF 1 Hf) eq_refl)].
     - apply (vars_ok_mem st m m'); [|exact D]. intros x l Hx. destruct (Hvar x l Hx) as (Hin & Hns & _).
       apply Hm; [exact (proj1 (in_mem_range _ Hin)) | exact Hns].
   Qed.
@@ -232,7 +259,7 @@ Section Correct.
     rd m' (addr_of l) = n mod W -> (forall a, 0 <= a -> a <> addr_of l -> rd m' a = rd m a) ->
     exists st', assign ge x n st = Ret Normal st' /\ Rel st' m' /\ post st st' [].
   Proof.
-    intros Hx Hn (A & B & [Hg Hf] & E) Hw Hm.
+    intros Hx Hn (A & B & [Hg Hf] & E & Q) Hw Hm.
     destruct (Hvar x l Hx) as (Hin & Hns & HnP & Hn1).
     destruct (stk st) as [|fr rest] eqn:Es; [exfalso; apply E; reflexivity|].
     assert (Htop : top st = fr) by (unfold top; rewrite Es; reflexivity).
@@ -243,8 +270,8 @@ Section Correct.
     destruct l as [ga|k]; cbn [addr_of] in *.
     - (* a global *)
       destruct (Hg x ga Hx) as (N1 & N2 & N3 & v & Hv & _). rewrite Htop in N1, N2. rewrite N1, N2, N3, Hv.
-      eexists. split; [reflexivity|]. split; [|repeat split].
-      split; [exact HC'|]. split; [exact H1'|]. split; [|cbn; rewrite Es; discriminate].
+      eexists. split; [reflexivity|]. split; [|unfold post, top; cbn; rewrite ?Es; repeat split].
+      split; [exact HC'|]. split; [exact H1'|]. split; [|split; [cbn; rewrite Es; discriminate | unfold top in *; cbn; rewrite Es in *; exact Q]].
       split.
       + intros y a Hy. destruct (Hg y a Hy) as (M1 & M2 & M3 & w & Hw' & Hok).
         unfold top in *. cbn. rewrite Es in *. repeat split; try assumption.
@@ -268,8 +295,8 @@ Section Correct.
                                  = Ret Normal st' /\ st' = set_stk st ({| f_vars := update x (Vint n) (f_vars fr); f_vals := f_vals fr; f_depth := f_depth fr |} :: rest)).
       { destruct Hvok as [->|(z & -> & _)]; eexists; split; reflexivity. }
       destruct Hupd as (st' & Hst' & ->). exists (set_stk st ({| f_vars := update x (Vint n) (f_vars fr); f_vals := f_vals fr; f_depth := f_depth fr |} :: rest)).
-      split; [exact Hst'|]. split; [|repeat split].
-      split; [exact HC'|]. split; [exact H1'|]. split; [|cbn; discriminate].
+      split; [exact Hst'|]. split; [|unfold post, top; cbn; rewrite ?Es; repeat split].
+      split; [exact HC'|]. split; [exact H1'|]. split; [|split; [cbn; discriminate | unfold top in *; cbn; rewrite Es in Q; exact Q]].
       split.
       + intros y a Hy. destruct (Hg y a Hy) as (M1 & M2 & M3 & w & Hw' & Hok).
         assert (Hne : x <> y) by (intros <-; rewrite Hx in Hy; discriminate).
@@ -319,7 +346,7 @@ Section Correct.
     end.
 
   Lemma post_start st st0 st' o : same_store st st0 -> post st0 st' o -> post st st' o.
-  Proof. intros (_ & _ & Ha & Ho & Hi & Hn) (H1 & H2 & H3 & H4). repeat split; congruence. Qed.
+  Proof. intros (_ & Hk & Ha & Ho & Hi & Hn) (H1 & H2 & H3 & H4 & H5 & H6). unfold post, top in *. rewrite <- Hk. repeat split; congruence. Qed.
 
   Lemma result_ok_start st st0 r m pos nxt a b inp : same_store st st0 ->
     result_ok st0 r m pos nxt a b inp -> result_ok st r m pos nxt a b inp.
@@ -331,7 +358,7 @@ Section Correct.
     - intros (o & H1 & H2). exists o. exact (conj H1 (post_start _ _ _ _ Hs H2)).
   Qed.
 
-  Notation cs' := (cs venv pool size nslots off0 og exitl).
+  Notation cs' := (cs pinfo venv pool size nslots off0 og exitl).
   Notation cge' := (cge venv pool size nslots off0).
 
   Lemma cge_pure e n r : cge' e n = Some r -> pure e = true.
@@ -362,7 +389,7 @@ Section Correct.
     result_ok st (exec f ge s st) m pos nxt a b inp.
 
   Lemma seq_ok F : (forall f, (f < F)%nat -> stmt_ok f) ->
-    forall ss f, (f < F)%nat -> forall n code n' st, cs_list venv pool size nslots off0 og exitl ss n = Some (code, n') ->
+    forall ss f, (f < F)%nat -> forall n code n' st, cs_list pinfo venv pool size nslots off0 og exitl ss n = Some (code, n') ->
     forall m pos nxt a b inp, Rel st m -> code_at Cm lab pos code nxt -> 0 <= pos -> nxt < W -> 0 <= lab exitl < W ->
     result_ok st (execs f ge ss st) m pos nxt a b inp.
   Proof.
@@ -371,7 +398,7 @@ Section Correct.
     - inversion Hcs; subst code n'. cbn [code_at] in Hc. subst nxt.
       exists [], a, b, m. exact (conj (runs_refl _ _) (conj HR (conj (post_refl st) (frame_only_refl m)))).
     - destruct (cs' x n) as [[c1 n1]|] eqn:E1; [|discriminate]. cbn [obind] in Hcs.
-      destruct (cs_list venv pool size nslots off0 og exitl r n1) as [[c2 n2]|] eqn:E2; [|discriminate]. cbn [obind] in Hcs.
+      destruct (cs_list pinfo venv pool size nslots off0 og exitl r n1) as [[c2 n2]|] eqn:E2; [|discriminate]. cbn [obind] in Hcs.
       inversion Hcs; subst code n'. apply code_at_app in Hc. destruct Hc as (p1 & Hc1 & Hc2).
       pose proof (code_at_le _ _ _ _ _ Hc1) as L1. pose proof (code_at_le _ _ _ _ _ Hc2) as L2.
       pose proof (IH f0 ltac:(lia) x n c1 n1 st E1 m pos p1 a b inp HR Hc1 Hp ltac:(lia) Hex) as H1.
@@ -418,9 +445,9 @@ Section Correct.
 
   Lemma Rel_eqv st st' m : gvars st' = gvars st -> stk st' = stk st -> Rel st m -> Rel st' m.
   Proof.
-    intros Hg Hk (A & B & [D1 D2] & E). split; [exact A|]. split; [exact B|]. split.
+    intros Hg Hk (A & B & [D1 D2] & E & Q). split; [exact A|]. split; [exact B|]. split.
     - unfold vars_ok, top in *. rewrite Hg, Hk. split; assumption.
-    - rewrite Hk. exact E.
+    - unfold top. rewrite Hk. exact (conj E Q).
   Qed.
 
   Lemma Rel_wr_scratch st m a v : scratch a -> 0 <= a -> Rel st m -> Rel st (wr m a v).
@@ -435,14 +462,101 @@ Section Correct.
   Lemma O_facts k : 0 <= k < og -> in_mem (sp + k) = true /\ ~ P (sp + k) /\ sp + k <> 1 /\ ~ Tm (sp + k) /\ scratch (sp + k) /\ 0 <= sp + k.
   Proof.
     intros Hk. assert (Ho : O (sp + k)) by (unfold O; lia). destruct (HO _ Ho) as (A & B & D & E).
-    repeat split; try assumption; [right; exact Ho | exact (proj1 (in_mem_range _ A))].
+    repeat split; try assumption; [right; left; exact Ho | exact (proj1 (in_mem_range _ A))].
+  Qed.
+
+  (* ---- procedure calls *)
+  Notation cargs' := (cargs venv pool size nslots off0).
+
+  (* actual i of vs sits in the outgoing word sp + k + i *)
+  Definition args_stored (vs : list value) (k : Z) (m : WMap.t) : Prop :=
+    forall i v, nth_error vs i = Some v ->
+      exists z, v = Vint z /\ in_int z = true /\ rd m (sp + k + Z.of_nat i) = z mod W.
+
+  (* what the callee must do, seen from the caller: entered at its entry label with the return address in areg and
+     the actuals stored, it comes back to that address with the caller's relation restored (for the state XSem's
+     invoke yields), having changed only what the caller regards as scratch (outgoing area, free stack) or the
+     words of variables in scope *)
+  Definition call_spec (f : nat) : Prop :=
+    forall p pi vs st m link b inp,
+      pinfo p = Some pi -> pf_isfunc pi = false ->
+      Rel st m -> args_stored vs 1 m -> Z.of_nat (List.length vs) + 1 <= og -> 0 <= link < W ->
+      match invoke (exec f ge) ge false p vs st with
+      | Ret _ st' => exists outs a' b' m',
+          runs inp (mk (lab (pf_entry pi)) link b 0 m) (map wr_ev outs) inp (mk link a' b' 0 m') /\
+          Rel st' m' /\ post st st' outs /\ frame_only m m'
+      | Halt c st' => exists outs, exits inp (mk (lab (pf_entry pi)) link b 0 m) (map wr_ev outs) inp (c mod W) /\ post st st' outs
+      | Fail _ => True
+      end.
+
+  Lemma cargs_pure : forall args k n r, cargs' args k n = Some r -> forall e, In e args -> pure e = true.
+  Proof.
+    induction args as [|e0 r0 IH]; intros k n r Hc e Hin; [destruct Hin|]. cbn [cargs] in Hc.
+    destruct (cge' e0 n) as [[c n1]|] eqn:E1; [|discriminate]. cbn [obind] in Hc.
+    destruct (cargs' r0 (k + 1) n1) as [[cr n2]|] eqn:E2; [|discriminate].
+    destruct Hin as [<-|Hin]; [eapply cge_pure; exact E1 | eapply IH; eassumption].
+  Qed.
+
+  Lemma run_args : forall args k n c n1 f st L s m,
+    cargs' args k n = Some (c, n1) -> evals f ge args st = Ret L s -> Rel st m ->
+    0 <= k -> k + Z.of_nat (List.length args) <= og ->
+    same_store st s /\
+    forall pos nxt a b inp, code_at Cm lab pos c nxt -> 0 <= pos -> nxt < W ->
+    exists a' b' m', taus inp (mk pos a b 0 m) (mk nxt a' b' 0 m') /\ Rel st m' /\
+      (forall x, 0 <= x -> ~ Tm x -> ~ (sp + k <= x < sp + k + Z.of_nat (List.length args)) -> rd m' x = rd m x) /\
+      args_stored (map fst L) k m'.
+  Proof.
+    induction args as [|e r IH]; intros k n c n1 f st L s m Hc He HR Hk Hlen; cbn [cargs] in Hc.
+    - inversion Hc; subst c n1. destruct (evals_nil _ _ _ _ _ He) as [-> ->]. split; [apply same_store_refl|].
+      intros pos nxt a b inp Hca Hp Hn. cbn [code_at] in Hca. subst nxt.
+      exists a, b, m. split; [apply taus_refl|]. split; [exact HR|]. split; [intros; reflexivity|].
+      intros i v Hi. destruct i; discriminate.
+    - destruct (cge' e n) as [[c1 n2]|] eqn:E1; [|discriminate]. cbn [obind] in Hc.
+      destruct (cargs' r (k + 1) n2) as [[cr n3]|] eqn:E2; [|discriminate]. cbn [obind] in Hc. inversion Hc; subst c n1.
+      destruct (evals_cons _ _ _ _ _ _ _ He) as (f1 & v & sl & L' & -> & Ee & Er & ->).
+      cbn [List.length] in Hlen. rewrite Nat2Z.inj_succ in Hlen.
+      assert (HR1 : Rel (set_cur st eff0) m) by (eapply Rel_same; [apply same_store_set_cur | exact HR]).
+      destruct (run_expr e n c1 n2 f1 _ v sl m E1 Ee HR1) as [Hss (z & -> & Hz & Hrun)].
+      assert (S2 : same_store st (set_cur sl (eff_union (cur st) (cur sl)))).
+      { eapply same_store_trans; [apply (same_store_set_cur st eff0)|]. eapply same_store_trans; [exact Hss | apply same_store_set_cur]. }
+      destruct (O_facts k ltac:(lia)) as (Oin & OnP & On1 & OnT & Os & Opos).
+      split.
+      + eapply same_store_trans; [exact S2|].
+        exact (proj1 (IH (k + 1) n2 cr n3 f1 _ L' s (wr m (sp + k) 0) E2 Er
+                         (Rel_wr_scratch _ _ _ _ Os Opos (Rel_same _ _ _ S2 HR)) ltac:(lia) ltac:(lia))).
+      + intros pos nxt a b inp Hca Hp Hn.
+        apply code_at_app in Hca. destruct Hca as (p1 & Hc1 & Hca).
+        assert (Hsp : exists p2, code_at Cm lab p1 [LDBM 1; STAI k] p2 /\ code_at Cm lab p2 cr nxt).
+        { apply (code_at_app Cm lab [LDBM 1; STAI k]). exact Hca. }
+        clear Hca. destruct Hsp as (p2 & Hc2 & Hc3).
+        pose proof (code_at_le _ _ _ _ _ Hc1) as L1. pose proof (code_at_le _ _ _ _ _ Hc2) as L2. pose proof (code_at_le _ _ _ _ _ Hc3) as L3.
+        destruct (Hrun pos p1 a b inp Hc1 Hp ltac:(lia)) as (b1 & m1 & T1 & HRm1 & Hk1).
+        pose proof (run_store_sp k m1 p1 p2 (z mod W) b1 inp Hc2 (proj1 HRm1) (proj1 (proj2 HRm1)) Oin ltac:(lia)) as T2.
+        set (m2 := wr m1 (sp + k) (z mod W)) in *.
+        assert (HR2 : Rel (set_cur sl (eff_union (cur st) (cur sl))) m2).
+        { apply Rel_wr_scratch; [exact Os | exact Opos|]. eapply Rel_same; [|exact HRm1]. eapply same_store_trans; [exact Hss | apply same_store_set_cur]. }
+        destruct (IH (k + 1) n2 cr n3 f1 _ L' s m2 E2 Er HR2 ltac:(lia) ltac:(lia)) as [Hs3 Hrun3].
+        destruct (Hrun3 p2 nxt (z mod W) sp inp Hc3 ltac:(lia) Hn) as (a3 & b3 & m3 & T3 & HR3 & Hk3 & Hst3).
+        exists a3, b3, m3. split; [eapply taus_trans; [exact T1|]; eapply taus_trans; [exact T2 | exact T3]|].
+        split; [eapply Rel_same; [apply same_store_sym; exact S2 | exact HR3]|].
+        split.
+        * intros x Hx HnT Hnr. cbn [List.length] in Hnr. rewrite Nat2Z.inj_succ in Hnr. rewrite Hk3; [|exact Hx | exact HnT | lia].
+          unfold m2. rewrite rd_wr_other; [|exact Opos | exact Hx | lia]. apply Hk1; assumption.
+        * intros i v Hi. destruct i as [|j]; cbn [map fst nth_error] in Hi.
+          -- inversion Hi; subst v. exists z. split; [reflexivity|]. split; [exact Hz|].
+             rewrite Z.add_0_r. rewrite Hk3; [|exact Opos | exact OnT | lia]. unfold m2. apply rd_wr_same.
+          -- destruct (Hst3 j v Hi) as (zz & -> & Hzz & Hrd). exists zz. split; [reflexivity|]. split; [exact Hzz|].
+             rewrite <- Hrd. f_equal. lia.
   Qed.
 
   (* ---- the theorem *)
-  Theorem stmt_correct : forall f, stmt_ok f.
+  Theorem stmt_correct_calls : forall f, (forall f', (f' < f)%nat -> call_spec f') -> stmt_ok f.
   Proof.
-    induction f as [f IH] using lt_wf_ind. intros s n code n' st Hcs m pos nxt a b inp HR Hc Hp Hn Hex.
+    induction f as [f IH0] using lt_wf_ind. intros Hcall s n code n' st Hcs m pos nxt a b inp HR Hc Hp Hn Hex.
     destruct f as [|f0]; [exact I|].
+    assert (IH : forall f1, (f1 < S f0)%nat -> stmt_ok f1).
+    { intros f1 Hf1. apply IH0; [exact Hf1|]. intros f' Hf'. apply Hcall. lia. }
+    clear IH0.
     change (exec (S f0) ge s st) with (exec_body (eval f0 ge) (evals f0 ge) (exec f0 ge) (execs f0 ge) ge s st).
     unfold exec_body, tick. destruct (budget st <=? 0); [exact I|].
     change (set_budget st (budget st - 1)) with (ticked st).
@@ -640,6 +754,39 @@ Section Correct.
       + exact HR'.
       + eapply post_start; [exact Hss | exact Hpost].
       + eapply frame_only_trans; [apply frame_only_T; exact Hk1 | eapply frame_only_wr_var; exact Ex].
+    - (* procedure call:  actuals; LDAP link; BR entry; link: *)
+      destruct (pinfo g) as [pi|] eqn:Epi; [|discriminate]. cbn [obind] in Hcs.
+      destruct (pf_isfunc pi) eqn:Eisf; [discriminate|].
+      destruct (Z.of_nat (List.length args) + 1 <=? og) eqn:Eog; [|discriminate]. apply Z.leb_le in Eog.
+      destruct (cargs' args 1 n) as [[c n1]|] eqn:Ec; [|discriminate]. cbn [obind] in Hcs. inversion Hcs; subst code n'.
+      apply code_at_app in Hc. destruct Hc as (p1 & Hc1 & Hc). one_instr Hc p2 Hi2. one_instr Hc p3 Hi3. one_instr Hc p4 Hi4. subst p4.
+      cbn [instr_at] in Hi4. destruct Hi4 as [E4 Ll]. subst p3.
+      pose proof (code_at_le _ _ _ _ _ Hc1) as L1. pose proof (instr_at_le _ _ _ _ _ Hi2) as L2. pose proof (instr_at_le _ _ _ _ _ Hi3) as L3.
+      destruct (call_target ge g st0) as [sn| |] eqn:Ect; [exfalso; exact (Hcallt g pi st0 sn Epi Ect) | | exact I].
+      destruct (operands (evals f0 ge) args st0) as [vs s1|hc hs|u] eqn:Eo; cbn [bind rcase]; [| |exact I].
+      2:{ exfalso. unfold operands in Eo. apply bind_halt in Eo. destruct Eo as [Eo|(L & s1 & _ & Eo)].
+          - refine (evals_no_halt ge args _ f0 st0 hc hs Eo). intros e0 Hin. exact (pure_no_halt ge e0 (cargs_pure args 1 n _ Ec e0 Hin)).
+          - destruct (conflicts (map snd L)); discriminate. }
+      apply operands_ret in Eo. destruct Eo as (L & Eo & ->).
+      destruct (run_args args 1 n c n1 f0 st0 L s1 m Ec Eo HR0 ltac:(lia) ltac:(lia)) as [Hss Hrun].
+      destruct (Hrun pos p1 a b inp Hc1 Hp ltac:(lia)) as (a1 & b1 & m1 & T1 & HR1 & Hk1 & Hst).
+      pose proof (Rel_same _ _ _ Hss HR1) as HR1'.
+      assert (Hlen : List.length (map fst L) = List.length args).
+      { clear - Eo. revert f0 st0 L s1 Eo. induction args as [|e r IHa]; intros f0 st0 L s1 Eo.
+        - destruct (evals_nil _ _ _ _ _ Eo) as [-> _]. reflexivity.
+        - destruct (evals_cons _ _ _ _ _ _ _ Eo) as (f1 & v & sl & L' & -> & _ & Er & ->). cbn [map List.length]. f_equal. eapply IHa. exact Er. }
+      (* LDAP link; BR entry *)
+      pose proof (exec_ldap Cm lab m1 p1 p2 n1 a1 b1 inp Hi2 (proj1 HR1) ltac:(lia) ltac:(lia)) as T2. rewrite Ll in T2.
+      pose proof (exec_br Cm lab m1 p2 nxt (pf_entry pi) nxt b1 inp Hi3 (proj1 HR1) Hn (Hentry g pi Epi)) as T3.
+      assert (Hf1 : frame_only m m1).
+      { intros x Hx Hns _. apply Hk1; [exact Hx | intros Ht; apply Hns; left; exact Ht|].
+        intros Hr. apply Hns. right. left. unfold O. lia. }
+      pose proof (Hcall f0 ltac:(lia) g pi (map fst L) s1 m1 nxt b1 inp Epi Eisf HR1' Hst ltac:(rewrite Hlen; lia) ltac:(lia)) as Hcs1.
+      apply (result_ok_start st0 s1); [exact Hss|].
+      eapply result_ok_after_taus; [eapply (taus_trans inp _ _ _ T1 (taus_trans inp _ _ _ T2 T3)) | exact Hf1|].
+      destruct (invoke (exec f0 ge) ge false g (map fst L) s1) as [rv st2|hc st2|u]; cbn [bind rcase result_ok]; [| exact Hcs1 | exact I].
+      destruct Hcs1 as (o & a2 & b2 & m2 & R2 & HR2 & P2 & F2).
+      exists o, a2, b2, m2. exact (conj R2 (conj HR2 (conj P2 F2))).
     - (* system calls as statements *)
       destruct sn as [|sp1|sp1]; [|destruct sp1; try discriminate|discriminate].
       + (* exit: 0(e) *)
@@ -741,10 +888,11 @@ Section Correct.
           -- cbn. exact (proj1 S2).
           -- cbn. exact (proj1 (proj2 S2)).
           -- eapply Rel_same; [exact Hss2|]. exact (conj HC4 (conj H14 (conj HV4 HS4))).
-        * destruct S0 as (_ & _ & A0 & B0 & C0 & D0). destruct Hss1 as (_ & _ & A1 & B1 & C1 & D1).
-          destruct S1 as (_ & _ & A2 & B2 & C2 & D2). destruct Hss2 as (_ & _ & A3 & B3 & C3 & D3).
-          destruct S2 as (_ & _ & A4 & B4 & C4 & D4).
-          unfold post. cbn. repeat split; congruence.
+        * destruct S0 as (_ & K0 & A0 & B0 & C0 & D0). destruct Hss1 as (_ & K1 & A1 & B1 & C1 & D1).
+          destruct S1 as (_ & K2 & A2 & B2 & C2 & D2). destruct Hss2 as (_ & K3 & A3 & B3 & C3 & D3).
+          destruct S2 as (_ & K4 & A4 & B4 & C4 & D4).
+          assert (Hstk : stk s1 = stk st0) by congruence.
+          unfold post, top. cbn. rewrite Hstk. repeat split; congruence.
         * eapply frame_only_trans; [apply frame_only_T; exact Hk1|].
           eapply frame_only_trans; [apply (frame_only_wr_scratch m1 (sp + 2) (x mod W) Os2 Opos2)|].
           eapply frame_only_trans; [apply frame_only_T; exact Hk3|].
@@ -788,3 +936,31 @@ Section Correct.
     - exact F.
   Qed.
 End Correct.
+
+(* ---------------------------------------------------------------- the statement theorem for bodies without calls:
+   no procedure can be called (pinfo is empty), no free stack is needed *)
+Definition no_procs : string -> option pframe := fun _ => None.
+Definition no_free : Z -> Prop := fun _ => False.
+Definition any_depth : nat -> Prop := fun _ => True.
+
+Theorem stmt_correct :
+  forall (venv : string -> option loc) (pool : Z -> option Z) (size nslots off0 og : Z) (exitl : label) (ge : genv)
+         (P : Z -> Prop) (m0 : WMap.t) (lab : label -> Z) (sp : Z),
+    0 <= tlo size nslots sp /\ fb size sp - off0 < MEMW ->
+    (forall a, T size nslots sp off0 a -> ~ P a) ->
+    ~ T size nslots sp off0 1 ->
+    (forall a, O og sp a -> in_mem a = true /\ ~ P a /\ a <> 1 /\ ~ T size nslots sp off0 a) ->
+    in_mem (sp + 2) = true /\ ~ P (sp + 2) /\ sp + 2 <> 1 ->
+    (forall v a, pool v = Some a -> P a /\ in_mem a = true /\ rd m0 a = v mod W) ->
+    (forall x l, venv x = Some l ->
+       in_mem (addr_of sp l) = true /\ ~ scratch no_free size nslots off0 og sp (addr_of sp l) /\ ~ P (addr_of sp l) /\ addr_of sp l <> 1) ->
+    (forall x y lx ly, venv x = Some lx -> venv y = Some ly -> x <> y -> addr_of sp lx <> addr_of sp ly) ->
+    forall f, stmt_ok no_procs no_free any_depth venv pool size nslots off0 og exitl ge P m0 lab sp f.
+Proof.
+  intros venv pool size nslots off0 og exitl ge P m0 lab sp H1 H2 H3 H4 H5 H6 H7 H8 f.
+  apply stmt_correct_calls; try assumption.
+  - intros a [].
+  - intros p pi Hp. discriminate Hp.
+  - intros p pi st n Hp. discriminate Hp.
+  - intros f' _ p pi vs st m link b inp Hp. discriminate Hp.
+Qed.
